@@ -17,6 +17,7 @@
 
 fn main() {
     rust_nightly();
+    println!("cargo:rustc-check-cfg=cfg(starlark_verif)");
 }
 
 fn rust_nightly() {
